@@ -14,7 +14,9 @@ type rectCase struct {
 	Via   string       `json:"via"`
 }
 
-func (c rectCase) rect() clip.Rect64 { return clip.NewRect64(c.Rect[0], c.Rect[1], c.Rect[2], c.Rect[3]) }
+func (c rectCase) rect() clip.Rect64 {
+	return clip.NewRect64(c.Rect[0], c.Rect[1], c.Rect[2], c.Rect[3])
+}
 func (c rectCase) rectPath() clip.Path64 {
 	return clip.Path64{{X: c.Rect[0], Y: c.Rect[1]}, {X: c.Rect[2], Y: c.Rect[1]}, {X: c.Rect[2], Y: c.Rect[3]}, {X: c.Rect[0], Y: c.Rect[3]}}
 }
